@@ -406,13 +406,27 @@ def check_dispatcher(P, ctx):
                     if inst <= a < inst + 64:
                         return 777 if member == 0 else 0          # every other member says the opposite
                     raise Refuted('reads a word outside the instance')
-                it = cint.CInt(P, f, atoms={('global', 'NULL'): 0}, call=call, mem=mem, recurse=True)
-                try:
-                    r = it.run([7000, 7100, offset, 7200])
-                except Refuted as x:
-                    r = ('refuted', str(x), None)
-                ncase += 1
+                def build(oracle, call=call, mem=mem):
+                    it = cint.CInt(P, f, atoms={('global', 'NULL'): 0}, call=call, mem=mem, recurse=True)
+                    it.unknown = oracle      # static locals hold whatever earlier lookups left there: the type, the class, an instance, nothing
+                    try:
+                        return it.run([7000, 7100, offset, 7200])
+                    except Refuted as x:
+                        return ('refuted', str(x), None)
+                runs = cint.all_unknown(build, values=(0, 7000, 7100, INST), limit=300)
+                ncase += len(runs)
                 which = 'class' if inst == 0 else 'member'
+                worst = None
+                for assign, r in runs:
+                    if r[0] == 'stuck':
+                        worst = worst or (assign, r)
+                        continue
+                    good_ = (r[0] == 'term' and r[1] == ('throw', 'ClassError')) if (inst == 0 or member == 0) else (r[0] == 'ret' and r[1] == inst)
+                    if not good_:
+                        worst = (assign, r)
+                        break
+                assign, r = worst if worst else runs[0]
+                prior = ''.join(', static %s = %s' % (k_[2], v_) for k_, v_ in assign.items()) if worst else ''
                 if r[0] == 'stuck':
                     unsup = '%s at %s' % (r[1], P.cfg(f).describe(r[2]))
                     continue
@@ -422,7 +436,7 @@ def check_dispatcher(P, ctx):
                     good = r[0] == 'ret' and r[1] == inst
                 if not good and bad[which] is None:
                     got = 'raises %s' % (r[1][1] if isinstance(r[1], tuple) else r[1]) if r[0] == 'term' else ('returns %s' % (r[1],) if r[0] == 'ret' else r[1])
-                    bad[which] = 'class %s, member at offset %d %s: %s' % ('absent' if inst == 0 else 'present', offset, 'empty' if member == 0 else 'set', got)
+                    bad[which] = 'class %s, member at offset %d %s%s: %s' % ('absent' if inst == 0 else 'present', offset, 'empty' if member == 0 else 'set', prior, got)
     ctx.stats['paths'] += ncase
     if unsup:
         ctx.undecided(rule, 'Type_Method_At_Offset:shape', site(f), 'the lookup leaves the evaluated fragment: ' + unsup)
